@@ -576,7 +576,7 @@ def _run_ctf(case):
         t = _make_transform(case, kwargs)
         w = make(lazy).apply_ctf(t, max_batch=mb) if case["cls"] == "CTF" else t.apply(make(lazy), max_batch=mb)
         if lazy:
-            w = w.compute(scheduler="synchronous")
+            w = w.compute(scheduler="synchronous", progress_bar=False)
         return w
 
     res = apply({**scal, **{k: d.obj for k, d in dist.items()}}, case["lazy"], case["max_batch"])
@@ -737,7 +737,7 @@ def _run_builder(case):
         else:
             w = abtem.PlaneWave(energy=energy, tilt=tilt).multislice(pot, detectors=det(), lazy=lazy, max_batch=mb)
         if lazy:
-            w = w.compute(scheduler="synchronous")
+            w = w.compute(scheduler="synchronous", progress_bar=False)
         return w
 
     res = simulate({**scal, **{k: d.obj for k, d in dist.items()}}, targ, sarg, case["lazy"], case["max_batch"])
